@@ -237,6 +237,7 @@ def wide_data_frame_to_triangle(
                 "risk_basis",
                 "per_occurrence_limit",
             ]
+            + [col for col in METADATA_COLUMNS[1:5] if col in df.columns]
             + detail_cols
             + loss_detail_cols,
             dropna=False,
@@ -407,6 +408,7 @@ def long_data_frame_to_triangle(
                 "risk_basis",
                 "per_occurrence_limit",
             ]
+            + [col for col in METADATA_COLUMNS[1:5] if col in df.columns]
             + detail_cols
             + loss_detail_cols,
             dropna=False,
